@@ -169,12 +169,30 @@ func translateCypherAssignmentOperator(operator cypher.AssignmentOperator) (pgsq
 }
 
 func ExtractSyntaxNodeReferences(root pgsql.SyntaxNode) (*pgsql.IdentifierSet, error) {
-	dependencies := pgsql.NewIdentifierSet()
+	var (
+		dependencies = pgsql.NewIdentifierSet()
+
+		// The walk visits the column of a row column reference such as (pc0).edges as an identifier of its
+		// own. The field of a path is not a reference to a binding: counting it would make the expression
+		// depend on an identifier that no frame ever defines, so that no frame short of the final projection
+		// could ever apply a constraint on relationships(p) or nodes(p).
+		pendingColumns = map[pgsql.Identifier]int{}
+	)
 
 	return dependencies, walk.PgSQL(root, walk.NewSimpleVisitor[pgsql.SyntaxNode](
 		func(node pgsql.SyntaxNode, errorHandler walk.VisitorHandler) {
 			switch typedNode := node.(type) {
+			case pgsql.RowColumnReference:
+				if typedNode.Column == pgsql.ColumnNodes || typedNode.Column == pgsql.ColumnEdges {
+					pendingColumns[typedNode.Column] += 1
+				}
+
 			case pgsql.Identifier:
+				if pendingColumns[typedNode] > 0 {
+					pendingColumns[typedNode] -= 1
+					return
+				}
+
 				// Filter for reserved identifiers
 				if !pgsql.IsReservedIdentifier(typedNode) {
 					dependencies.Add(typedNode)
